@@ -2,6 +2,8 @@ import Drv.Common
 import IwModel.Model.Txt
 import IwModel.Model.ReVm
 import IwModel.Model.Re
+import IwModel.Model.Ini
+import IwModel.Model.Repl
 namespace Drv.C17
 open IwModel Drv
 
@@ -96,6 +98,35 @@ def research (nm : Nat) (pat text : Bytes) : String :=
   | .oob => "research oob"
   | .fuel => "research fuel"
 
+
+/-- the handler of the harness: refuses (returns 0) a pair whose name is `bad` or whose value starts with `!` -/
+def iniHandler : Ini.Handler := fun _ name value => !(name == [98, 97, 100] || value.head? == some 33)
+
+def iniEvBudget : Nat := 64
+
+def iniOut (tag : String) (r : Ini.PR) : String :=
+  match r with
+  | .oob => tag ++ " oob"
+  | .fuel => tag ++ " fuel"
+  | .ok err evs =>
+    s!"{tag} {err} {evs.length}" ++ String.join ((evs.take iniEvBudget).map fun e =>
+      " " ++ hexOut e.sec ++ "/" ++ hexOut e.name ++ "/" ++ hexOut e.val)
+
+def iniJunk : Bytes := List.replicate Ini.genCfg.maxLine 0xAA
+
+/-- the replacement mapper of the harness -/
+def replMapper : Repl.Mapper := fun key =>
+  match key.head? with
+  | some 110 => none                                  -- 'n': no replacement, the key stays
+  | some 101 => some []                               -- 'e': erase
+  | some 107 => some ("kk-longer-than-the-key-kk".toList.map (·.toNat))
+  | _ => some [60, 82, 62]                            -- "<R>"
+
+def replOut (r : Option Bytes) : String :=
+  match r with
+  | none => "replm oob"
+  | some b => if b.length > 6000 then s!"replm ok {hexOut (b.take 6000)}+{b.length - 6000}" else s!"replm ok {hexOut b}"
+
 def step (ws : List String) : String :=
   match ws with
   | ["perturb", _] => "perturb ok"
@@ -143,6 +174,16 @@ def step (ws : List String) : String :=
   | ["reparse", p] => reparse (cz (hexArg p))
   | ["recomp", p] => recomp (cz (hexArg p))
   | ["research", nm, p, t] => research (natArg nm) (cz (hexArg p)) (hexArg t)
+  | ["inis", h] => iniOut "inis" (Ini.parseString Ini.genCfg iniHandler iniJunk (cz (hexArg h)))
+  | ["inifile", h] => iniOut "inifile" (Ini.parseFile Ini.genCfg iniHandler iniJunk (hexArg h))
+  | "inif" :: fills =>
+    let fs := fills.map hexArg
+    if fs.any (fun f => f.length + 1 > Ini.genCfg.readerNum) then "inif bad-fill"
+    else iniOut "inif" (Ini.parseFills Ini.genCfg iniHandler iniJunk fs)
+  | "replm" :: dl :: d :: keys =>
+    let data := hexArg d
+    if natArg dl > data.length then "replm bad-len"
+    else replOut (Repl.replace replMapper (cz data) (natArg dl) (keys.map fun k => cz (hexArg k)))
   | _ => "bad-op"
 
 end Drv.C17
